@@ -292,7 +292,7 @@ def obligations(tier):
     # ---- C2: Pauli-observable measurement: probabilities, record and post-measurement state ---------------------
     PSTR = [('XX', [1, 1]), ('ZZ', [3, 3]), ('XY', [1, 2]), ('YZ', [2, 3]), ('ZX', [3, 1]), ('X', [1]), ('Y', [2]), ('-XZ', [1, 3]), ('-Y', [2])]
 
-    def pauli_meas_body(cx, wrong=False):
+    def pauli_meas_body(cx, wrong=False, dm=False):
         from symx.snum import sqrt
 
         n = 2
@@ -308,7 +308,19 @@ def obligations(tier):
         gate = cirq.PauliMeasurementGate(obs_, key='m')
         psi = EM.sym_tensor(cx, (2,) * n, 'A')
         prng = make_prng(cx)
-        st = cirq.StateVectorSimulationState(initial_state=psi.copy(), qubits=q, prng=prng, dtype=np.complex128)
+        if dm:
+            from symx.proxy import wrap
+
+            v = psi.reshape(-1)
+            rho = np.empty((4, 4), dtype=object)
+            for i in range(4):
+                for j in range(4):
+                    rho[i, j] = v[i] * cj(v[j])
+            rho_t = rho.reshape((2,) * 4)
+            st = cirq.DensityMatrixSimulationState(initial_state=0, qubits=q, prng=prng, dtype=np.complex128)
+            st._state._density_matrix = wrap(rho_t) if cx.mode != 'concrete' else rho_t.astype(complex)
+        else:
+            st = cirq.StateVectorSimulationState(initial_state=psi.copy(), qubits=q, prng=prng, dtype=np.complex128)
         cirq.act_on(gate.on(*[q[i] for i in pl]), st)
         rec = [int(b) for b in st.log_of_measurement_results['m']]
         out = st.target_tensor
@@ -326,10 +338,20 @@ def obligations(tier):
         cx.check(len(prng.log) == 1 and len(rec) == 1, label='pauli measurement: one draw, one recorded bit')
         # the probability requested for the drawn outcome is the Born weight of the recorded eigenvalue
         cx.close(pvec[kdraw], (w / tot) * (0.5 if wrong else 1.0), label=f'PauliMeasurementGate[{name}]: probability of the drawn outcome == <psi|(1 +- P)/2|psi>')
+        if dm:
+            pv = np.asarray(proj, dtype=object).reshape(-1)
+            exp_rho = np.empty((4, 4), dtype=object)
+            for i in range(4):
+                for j in range(4):
+                    exp_rho[i, j] = pv[i] * cj(pv[j])
+            cx.close(np.asarray(out, dtype=object).reshape(-1) * (w / tot), exp_rho.reshape(-1), label=f'PauliMeasurementGate[{name}] (density matrix): post state * p == Pi rho Pi')
+            return
         nrm = sqrt(w / tot) if cx.mode != 'concrete' else np.sqrt(w / tot)
         cx.close(np.asarray(out, dtype=object).reshape(-1) * nrm, np.asarray(proj, dtype=object).reshape(-1), label=f'PauliMeasurementGate[{name}]: post state * sqrt(p) == (1 +- P)/2 psi')
 
     obs.append(Obligation('pauli_measurement', pauli_meas_body, twin=lambda cx: pauli_meas_body(cx, wrong=True), expected=(ZeroDivisionError,), opts={'weight': 8, 'decide_timeout_ms': 300}, desc='cirq.act_on(PauliMeasurementGate(observable)) for 9 signed Pauli observables on 1-2 qubits (all placements) on an ARBITRARY symbolic 2-qubit state: probability of the drawn outcome == Born weight of the recorded eigenvalue, post-measurement state == projection onto that eigenspace (so a repeated measurement repeats the outcome)'))
+
+    obs.append(Obligation('pauli_measurement.dm', lambda cx: pauli_meas_body(cx, dm=True), twin=lambda cx: pauli_meas_body(cx, wrong=True, dm=True), expected=(ZeroDivisionError,), opts={'weight': 10, 'decide_timeout_ms': 300}, desc='the same law on a DensityMatrixSimulationState holding psi psi^dag: probability of the drawn outcome and post-measurement density matrix == Pi rho Pi / p (this path went through cirq.apply_channel, which used to apply the basis-change prefix of the decomposition before giving up)'))
 
     # the tableau measurement law (Clifford simulators) is decided by C13's obligation; it is part of this property too
     from checks import C13 as _C13
@@ -424,6 +446,7 @@ def main(tier, seed=0, replay=None, only=None, procs=None):
         'amplitude_box': [-1, 1],
         'rotation_box': [-4, 4],
         'pauli_measurement': '9 signed observables on <=2 qubits, arbitrary symbolic state',
+        'pauli_measurement.dm': 'same, density-matrix simulation state (rank-1 symbolic rho)',
         'clifford': 'CliffordTableau._measure from an arbitrary valid tableau (obligation shared with C13)',
         'outside': ['programs that measure, apply H + CNOT and measure two qubits again (mid_then_gate: the NRA equality of the probability products does not finish; left out, not claimed)', 'statistics of numpy generator itself', 'CH-form measurement', 'qudit measurements', 'complex64', 'more than 2 repetitions', 'sample_density_matrix'],
     }
